@@ -49,6 +49,7 @@ type (
 		fn        reflect.Value
 		args      []reflect.Value
 		callSlice bool
+		subExprs  []ast.Expr // the argument expressions, for the write-back of &x arguments
 	}
 )
 
